@@ -34,6 +34,38 @@ pub fn random_config(rng: &mut Rng, k: usize) -> SetSpec {
     }
 }
 
+/// `A: x | y;` -> `A: x;\nA: y;` for one random rule of a generated text (no `|` occurs inside their recognisers).
+pub fn split_one_rule(text: &str, rng: &mut Rng, rep: &mut Rep) -> String {
+    let Some(tpos) = text.find("terminals\n") else { return text.to_string() };
+    let (rules, rest) = text.split_at(tpos);
+    let defs: Vec<&str> = rules.split(";\n").filter(|d| !d.trim().is_empty()).collect();
+    let cand: Vec<usize> = (0..defs.len()).filter(|&i| defs[i].contains('|') && !defs[i].trim_start().starts_with('@') && !defs[i].contains('{') || false).collect();
+    // rules with meta-data blocks in front of the colon are left alone; production meta-data after an alternative is fine
+    let cand: Vec<usize> = if cand.is_empty() { (0..defs.len()).filter(|&i| defs[i].contains('|') && !defs[i].trim_start().starts_with('@') && defs[i].find('{').map_or(true, |b| b > defs[i].find(':').unwrap_or(0))).collect() } else { cand };
+    if cand.is_empty() {
+        return text.to_string();
+    }
+    let k = *rng.pick(&cand);
+    let d = defs[k];
+    let colon = d.find(':').unwrap();
+    let name = d[..colon].trim();
+    let bar = d.find('|').unwrap();
+    let first = d[colon + 1..bar].trim();
+    let second = d[bar + 1..].trim();
+    let mut out = String::new();
+    for (i, x) in defs.iter().enumerate() {
+        if i == k {
+            out.push_str(&format!("{}: {};\n{}: {};\n", name, first, name, second));
+        } else {
+            out.push_str(x);
+            out.push_str(";\n");
+        }
+    }
+    out.push_str(rest);
+    rep.count("grammars_with_a_rule_written_twice", 1);
+    out
+}
+
 pub fn emit(krate: &mut Crate, text: &str, origin: &str, spec: &SetSpec, rep: &mut Rep) {
     let m = format!("g{}", krate.modules.len());
     let c = generate_into(&krate.src(), &m, text, spec);
@@ -95,6 +127,8 @@ pub fn main(a: &Args) {
                 }
                 _ => ("ast", gen_ast(&mut rng).text()),
             };
+            // sometimes one rule is written as two definitions of the same name (`A: x; A: y;`)
+            let text = if rng.chance(0.1) { split_one_rule(&text, &mut rng, &mut rep) } else { text };
             for _ in 0..per {
                 k += 1;
                 let spec = random_config(&mut rng, k);
